@@ -208,8 +208,8 @@ func (r ChildResult) Crashed() bool {
 	if r.TimedOut {
 		return false
 	}
-	if r.Partial != nil && r.ExitCode == 0 {
-		return false
+	if r.Partial != nil && (r.ExitCode == 0 || r.ExitCode == 66) {
+		return false // 66 is the race detector's exit status after a completed run; the race log is judged separately
 	}
 	return r.ExitCode != 0 || r.Signal != ""
 }
